@@ -432,7 +432,9 @@ class ServerWorld:
                 return
         else:
             sid = sid[0]
-        if item is None:
+        if item is None or not hasattr(item, 'packet_type'):
+            # an end-of-stream marker (None, or whatever object the code
+            # under test uses for it)
             rec = (self.k.seq, self.k.now, None, None)
         else:
             rec = (self.k.seq, self.k.now, item.packet_type, item.data)
